@@ -322,6 +322,9 @@ def cfg_st(draw, tier, small=False, types=TYPES):
     cfg = {"type": t, "shape": shape, "flag": draw(st.booleans())}
     if t in ("povm", "mprocess"):
         cfg["m"] = draw(st.integers(2, 5))
+        # many outcomes on a small system (every 12th POVM): variable counts around and beyond 256
+        if t == "povm" and not small and gen.dim_of(shape) <= 4 and draw(st.integers(0, 11)) == 0:
+            cfg["m"] = draw(st.sampled_from([16, 17, 20] if gen.dim_of(shape) == 4 else [29, 30, 64, 65, 70]))
     if t == "mprocess":
         cfg["mshape"] = draw(st.sampled_from(factorizations(cfg["m"])))
     return cfg
